@@ -3,6 +3,7 @@ cb-guard, dead-detect, dead-cleanup, dead-raise (C19)."""
 from __future__ import annotations
 
 import ast
+import copy
 from collections import Counter
 
 from .facts import SKETCH_CLASSES, const_int, facts_of
@@ -966,6 +967,15 @@ class MergeTreeInterp:
 
     def call(self, e, env):
         d = dotted(e.func)
+        if d == "isinstance" and len(e.args) == 2:
+            # the sketches being merged are all of one (unknown) class: the first class a type dispatch asks about is taken to be it
+            v = self.ev(e.args[0], env)
+            if isinstance(v, Slot):
+                cname = dotted(e.args[1]) or unparse(e.args[1])
+                if getattr(self, "slot_class", None) is None:
+                    self.slot_class = cname
+                return cname == self.slot_class
+            return UNK
         if d == "len":
             v = self.ev(e.args[0], env)
             return len(v) if isinstance(v, (list, tuple)) else UNK
@@ -1153,6 +1163,12 @@ def _exitcode_var(test):
 def _is_failure_test(test, under_not_none):
     """True if `test` holds for every non-zero exit code (given the code is not None when under_not_none)."""
     def nonzero(t):
+        if isinstance(t, ast.Compare) and len(t.ops) == 1 and isinstance(t.comparators[0], ast.Attribute) and t.comparators[0].attr == "exitcode" \
+                and not (isinstance(t.left, ast.Attribute) and t.left.attr == "exitcode"):
+            # constant on the left: read `c op x` as `x op' c`
+            flip = {ast.Lt: ast.Gt, ast.Gt: ast.Lt, ast.LtE: ast.GtE, ast.GtE: ast.LtE, ast.Eq: ast.Eq, ast.NotEq: ast.NotEq}.get(type(t.ops[0]))
+            if flip is not None:
+                t = ast.copy_location(ast.Compare(left=t.comparators[0], ops=[flip()], comparators=[t.left]), t)
         if isinstance(t, ast.Compare) and len(t.ops) == 1 and isinstance(t.left, ast.Attribute) and t.left.attr == "exitcode":
             c = const_int(t.comparators[0])
             if isinstance(t.ops[0], ast.NotEq) and c == 0:
@@ -1198,15 +1214,32 @@ def _failure_branches(mon):
     def visit(stmts, not_none):
         for s in stmts:
             if isinstance(s, ast.If):
-                has_ec = any(isinstance(n, ast.Attribute) and n.attr == "exitcode" for n in ast.walk(s.test))
-                is_none = isinstance(s.test, ast.Compare) and len(s.test.ops) == 1 and isinstance(s.test.ops[0], ast.Is) \
-                    and isinstance(s.test.comparators[0], ast.Constant) and s.test.comparators[0].value is None and has_ec
-                acts = [n for st in s.body for n in ast.walk(st) if (isinstance(n, ast.Call) and isinstance(n.func, ast.Attribute) and n.func.attr in ("kill", "terminate"))
-                        or isinstance(n, ast.Raise)]
-                if has_ec and acts and not is_none:
-                    out.append((s, s.body, not_none))
-                visit(s.body, not_none or _is_not_none(s.test))
-                visit(s.orelse, not_none or is_none)
+                # `if not c: A else: B` is read as `if c: B else: A`
+                test, body, orelse = s.test, s.body, s.orelse
+                while isinstance(test, ast.UnaryOp) and isinstance(test.op, ast.Not):
+                    test, body, orelse = test.operand, orelse, body
+                has_ec = any(isinstance(n, ast.Attribute) and n.attr == "exitcode" for n in ast.walk(test))
+                is_none = isinstance(test, ast.Compare) and len(test.ops) == 1 and isinstance(test.ops[0], ast.Is) \
+                    and isinstance(test.comparators[0], ast.Constant) and test.comparators[0].value is None and has_ec
+                is_nn = _is_not_none(test)
+                for tst, bd, negated in ((test, body, False), (test, orelse, True)):
+                    acts = [n for st in bd for n in ast.walk(st) if (isinstance(n, ast.Call) and isinstance(n.func, ast.Attribute) and n.func.attr in ("kill", "terminate"))
+                            or isinstance(n, ast.Raise)]
+                    direct = [st for st in bd if not isinstance(st, ast.If)]
+                    acts_direct = [n for st in direct for n in ast.walk(st) if (isinstance(n, ast.Call) and isinstance(n.func, ast.Attribute) and n.func.attr in ("kill", "terminate"))
+                                   or isinstance(n, ast.Raise)]
+                    if has_ec and acts_direct and not negated and not is_none and not is_nn:
+                        node = copy.copy(s)
+                        node.test = test
+                        out.append((node, bd, not_none))
+                    elif has_ec and acts_direct and negated and isinstance(test, ast.Compare) and len(test.ops) == 1 and isinstance(test.ops[0], ast.Eq) \
+                            and const_int(test.comparators[0]) == 0:
+                        # else-arm of `if code == 0`
+                        node = copy.copy(s)
+                        node.test = ast.copy_location(ast.Compare(left=test.left, ops=[ast.NotEq()], comparators=test.comparators), test)
+                        out.append((node, bd, not_none))
+                visit(body, not_none or is_nn)
+                visit(orelse, not_none or is_none)
             elif isinstance(s, (ast.For, ast.While, ast.With, ast.Try)):
                 visit(s.body, not_none)
                 visit(getattr(s, "orelse", []) or [], not_none)
